@@ -71,6 +71,9 @@ def generate(prop, rng, index, tier):
             if k < 0.45:
                 actor.append({"do": "garbage-cell", "row": rng.randrange(nrows), "col": rng.randrange(ncols),
                               "text": rng.choice(["n/a", "", "NULL", "1;5x", "--", "1.2.3", "abc", "1 2", "0x1F"])})
+            elif k < 0.52:
+                # every cell of one row emptied (",," or a lone ""): not a blank line - the cells are there, and not numeric
+                actor.append({"do": "empty-row", "row": rng.randrange(nrows)})
             elif k < 0.6:
                 actor.append({"do": "rename-header", "col": rng.randrange(ncols), "to": rng.choice(["zz", "A ", "a"])})
             elif k < 0.8:
@@ -241,6 +244,13 @@ def execute(sc):
                     cells[pos] = txt
                     lines[li] = ",".join(cells)
                     bad_cells.setdefault(listed[pos], []).append(r)
+                elif a["do"] == "empty-row" and nrows:
+                    r = a["row"] % nrows
+                    li = row_line[r]
+                    ncell = len(lines[li].split(","))
+                    lines[li] = '""' if ncell == 1 else "," * (ncell - 1)
+                    for nm in head_names:
+                        bad_cells.setdefault(nm, []).append(r)
                 elif a["do"] == "rename-header":
                     pos = a["col"] % len(head_names)
                     if a["to"] not in head_names:
